@@ -798,7 +798,8 @@ pub fn gen_c16(cx: &mut Ctx) {
         }
     }
     // headers made of the importer's own default names, in other columns
-    for ns in [names(&["x_1", "x_2"]), names(&["x_1", "y"]), names(&["p", "x_3", "x_4", "z"]), names(&["x_2", "x_0", "x_1"])] {
+    for ns in [names(&["x_1", "x_2"]), names(&["x_1", "y"]), names(&["p", "x_3", "x_4", "z"]), names(&["x_2", "x_0", "x_1"]),
+               names(&["x", "x_"]), names(&["_a", "a"]), names(&["n", "n-"]), names(&["_", "__"]), names(&["-a", "a", "a-"])] {
         let bits = random_bits(&mut cx.rng, ns.len());
         let cols: Vec<usize> = (0..ns.len()).collect();
         let rows: Vec<usize> = (0..1usize << ns.len()).collect();
@@ -1042,6 +1043,8 @@ pub fn gen_c17(cx: &mut Ctx) {
     for ns in [
         names(&["A", "a"]), names(&["X1", "b", "x1"]), names(&["Cdc20", "cdc20", "p53", "P53"]), names(&["É", "é"]), names(&["ß", "SS", "ss"]),
         names(&["x_1", "x_2"]), names(&["x_1", "y"]), names(&["p", "x_3", "x_4", "z"]), names(&["x_2", "x_1", "x_0"]), names(&["x_5", "y"]),
+        // names that differ only in leading / trailing punctuation, or are punctuation only
+        names(&["x", "x_"]), names(&["_a", "a"]), names(&["n", "n-"]), names(&["_", "__"]), names(&["-a", "a", "a-", "a_"]), names(&["-", "--", "_-"]),
         names(&["x_0", "x_1", "x_10", "x_2", "x_3", "x_4", "x_5", "x_6", "x_7", "x_8", "x_9"]),
         names(&["x_0", "x_1"]), names(&["B", "aa", "é"]), names(&["out", "result"]),
         names(&["F"]), names(&["T", "a"]), names(&["0", "1"]), names(&["False", "true", "z"]), names(&["a", "f"]),
